@@ -659,13 +659,27 @@ func (c *Check) handlerEffects(kinds map[string]*recKind) {
 	{
 		fn := l.Func("x/market/keeper", "Keeper", "OnGroupClosed")
 		c.Analysed(fnName(fn))
-		all := fnAndClosures(fn)
-		if len(all) != 3 {
-			c.Fail("OnGroupClosed: expected 2 nested callbacks, got %d", len(all)-1)
+		// the two callbacks by role: what is handed to the order enumeration and to the bid enumeration (closures,
+		// method values, or closures that call a new helper)
+		var oc, bc *ssa.Function
+		for _, g := range fnAndClosuresDeep(fn) {
+			for _, call := range callsInOwn(g) {
+				a := call.Common().Args
+				if len(a) == 0 {
+					continue
+				}
+				switch {
+				case callIs(call, "WithOrdersForGroup", "", "types.GroupID"):
+					oc = callbackFunc(a[len(a)-1])
+				case callIs(call, "WithBidsForOrder", "", "types.OrderID"):
+					bc = callbackFunc(a[len(a)-1])
+				}
+			}
+		}
+		if oc == nil || bc == nil {
+			c.Fail("OnGroupClosed: order / bid enumeration callbacks not found")
 		}
 		c.requireOnPaths("R2", "group cascade: orders of the group enumerated", fn, successReturns(fn), func(x ssa.CallInstruction) bool { return callIs(x, "WithOrdersForGroup", "", "types.GroupID") }, "")
-		oc := all[1]
-		bc := all[2]
 		c.requireOnPaths("R2", "group cascade: every order -> closed", oc, successReturns(oc), func(x ssa.CallInstruction) bool { return callIs(x, "OnOrderClosed", "", "types.Order") }, "order stays live under a closed/paused group")
 		c.requireOnPaths("R2", "group cascade: bids of every order enumerated", oc, successReturns(oc), func(x ssa.CallInstruction) bool { return callIs(x, "WithBidsForOrder", "", "types.OrderID") }, "")
 		c.requireOnPaths("R2", "group cascade: every bid -> closed", bc, successReturns(bc), func(x ssa.CallInstruction) bool { return callIs(x, "OnBidClosed", "", "types.Bid") }, "bid stays live under a closed/paused group")
@@ -829,7 +843,7 @@ func (c *Check) leaseGuards(kinds map[string]*recKind) {
 		c.Ob("R3", "CreateOrder: stored only if the scan of earlier orders reported no live order", call.Pos(), scanOK, "a second non-closed order can be created for the group")
 	}
 	// the scan: WithOrdersForGroup(gid) callback sets err from ValidateInactive and that validator accepts only closed
-	cl := fnAndClosures(co)
+	cl := fnAndClosuresDeep(co) // the scan may sit in a new helper of CreateOrder
 	okScan := false
 	for _, g := range cl[1:] {
 		for _, call := range callsIn(g, false) {
